@@ -128,6 +128,8 @@ class Sub:
     sample_filter: Optional[Callable[[Any], Any]] = None  # shorten a case for evidence samples
     required_classes: tuple = ()    # classes that must be > 0 (thorough tier: generator sanity)
     # kind 'fuzz': coverage-guided campaign (atheris/libFuzzer) over the bytes behind strategy(); the oracle is check
+    skip_first: bool = False        # hyp: do not evaluate the first generated example of a shard (Hypothesis starts with the
+    #                                 minimal one; subs with one or two expensive examples want a typical one instead)
     fuzz_runs: int = 20000          # libFuzzer executions per shard
     fuzz_include: tuple = ("src",)  # module prefixes instrumented for coverage feedback
 
